@@ -72,6 +72,9 @@ const MaxFrameSize = 1<<24 - 1
 const MaxNumSettings = 1024
 const MaxNumHeaders = 1024
 
+// MaxHeaderFieldLength bounds the decoded length of one header name or value.
+const MaxHeaderFieldLength = 1 << 20
+
 // headerValueSepator separates multiple header values.
 const headerValueSeparator = "\x00"
 
